@@ -1,6 +1,6 @@
 SPECIFICATION XSpec
 CONSTANTS
- Mols <- MolsFind
+ Mols <- MCMols
  Dev = "none"
  FixedOrder = TRUE
 INVARIANT ExportInv
